@@ -27,7 +27,7 @@ class _Pipeline:
 
     def __rsub__(self, other) -> Self:
         # other - self
-        return -(self - other)  # type: ignore
+        raise NotImplementedError
 
     def __rmul__(self, other) -> Self:
         return self * other
@@ -81,6 +81,10 @@ class ImageProvider(_Pipeline, Generic[_R]):
                 f"{self.__name__} / {other.__name__}"
             )
         return self.__class__(lambda scale: self(scale) / other)
+
+    def __rsub__(self, other) -> ImageProvider:
+        # NOTE: -(self - other) differs in the sign of zero
+        return self.__class__(lambda scale: other - self(scale))
 
     def __rtruediv__(self, other) -> ImageProvider:
         return self.__class__(lambda scale: other / self(scale))
@@ -225,6 +229,10 @@ class ImageConverter(_Pipeline):
                 lambda x, scale: self(x, scale) / other(scale)
             ).with_name(f"({self.__name__} / {other.__name__})")
         return self.__class__(lambda x, scale: self(x, scale) / other)
+
+    def __rsub__(self, other) -> ImageConverter:
+        # NOTE: -(self - other) differs in the sign of zero
+        return self.__class__(lambda x, scale: other - self(x, scale))
 
     def __rtruediv__(self, other) -> ImageConverter:
         return self.__class__(lambda x, scale: other / self(x, scale))
